@@ -293,7 +293,7 @@ def batch(check: str, tier: str) -> int:
         with open(os.path.join(core.EVIDENCE_DIR, f"{check}.json"), "w") as f:
             json.dump(ev, f, indent=1, default=core._default)
 
-        print(f"[{check} {tier}] seed={seed} runs={evals} distinct_nontrivial={len(distinct)} wall={wall:.1f}s workers={W} determinism {det_checked - det_mismatch}/{det_checked} identical")
+        print(f"[{check} {tier}] seed={seed} runs={len(main_runs)} evaluations={cov['evaluations']} distinct_nontrivial={cov['distinct_nontrivial']} wall={wall:.1f}s workers={W} determinism {det_checked - det_mismatch}/{det_checked} identical")
         for ln in known_lines:
             print(ln)
         for ln in new_violation_lines:
